@@ -273,6 +273,43 @@ func (r ImportReplacer) Replace(d data.Data, cl Changelog, f *ast.File) (string,
 	return pkgName, nil
 }
 
+// deleteNamedImport deletes an import like astutil.DeleteNamedImport does,
+// except that comments in front of the import declarations stay in the file.
+//
+// Together with an import, astutil deletes the comment that precedes it on its
+// line. Lines are what the FileSet says they are, and the lines of rewritten
+// code are merged after every change of a run: once an earlier change has
+// edited the imports, the comment that trails the package clause can be on
+// the line of an import that a later change deletes.
+func deleteNamedImport(fset *token.FileSet, f *ast.File, name, path string) {
+	var firstImport token.Pos
+	for _, decl := range f.Decls {
+		if d, ok := decl.(*ast.GenDecl); ok && d.Tok == token.IMPORT {
+			firstImport = d.Pos()
+			break
+		}
+	}
+
+	before := append([]*ast.CommentGroup(nil), f.Comments...)
+	astutil.DeleteNamedImport(fset, f, name, path)
+	if len(f.Comments) == len(before) || !firstImport.IsValid() {
+		return
+	}
+
+	kept := make(map[*ast.CommentGroup]struct{}, len(f.Comments))
+	for _, cg := range f.Comments {
+		kept[cg] = struct{}{}
+	}
+	comments := before[:0]
+	for _, cg := range before {
+		_, ok := kept[cg]
+		if ok || (len(cg.List) > 0 && cg.End() <= firstImport) {
+			comments = append(comments, cg)
+		}
+	}
+	f.Comments = comments
+}
+
 // ImportsReplacer replaces a block of imports.
 type ImportsReplacer struct {
 	Imports []ImportReplacer
@@ -343,7 +380,7 @@ func (r ImportsReplacer) Cleanup(d data.Data, f *ast.File, newNames []string) er
 		// If this import was replaced by an added import, kill it.
 		_, replaced := taken[pkgName]
 		if replaced || !usesNameAsTopLevel(f, pkgName) {
-			astutil.DeleteNamedImport(r.Fset, f, importName, imp)
+			deleteNamedImport(r.Fset, f, importName, imp)
 		}
 	}
 
